@@ -15,12 +15,35 @@ theorem C06_check_iff (p : Bytes) : Verifier.check p = .ok ↔ WellFormed p :=
 theorem C06_check_total (p : Bytes) : Verifier.check p ≠ .panic :=
   check_ne_panic p
 
+/-- the refusal side stated outright: the verifier returns its error value exactly on the byte strings
+    that are NOT well-formed (`C06_check_iff` with `C06_check_total`: there is no third outcome) -/
+theorem C06_refuse_iff (p : Bytes) : Verifier.check p = .err ↔ ¬ WellFormed p := by
+  rw [← C06_check_iff]
+  have h := C06_check_total p
+  cases hc : Verifier.check p <;> simp_all
+
+/-- every byte string is decided: accepted or refused with an error, and the two exclude each other -/
+theorem C06_decides (p : Bytes) :
+    (Verifier.check p = .ok ∧ WellFormed p) ∨ (Verifier.check p = .err ∧ ¬ WellFormed p) := by
+  by_cases h : WellFormed p
+  · exact .inl ⟨(C06_check_iff p).mpr h, h⟩
+  · exact .inr ⟨(C06_refuse_iff p).mpr h, h⟩
+
+/-- what acceptance guarantees about the length: a whole, positive number of 8-byte slots, at most
+    1,000,000 of them (the bound `check_prog_len` enforces; other engines' size proofs start here) -/
+theorem C06_accepted_size (p : Bytes) (h : Verifier.check p = .ok) :
+    p.size % 8 = 0 ∧ 0 < p.size ∧ p.size ≤ 8 * 1000000 := by
+  have w := (C06_check_iff p).mp h
+  exact ⟨w.1, w.2.1, w.2.2.1⟩
+
 -- non-vacuity: `mov r0, 0; exit` is well-formed (and accepted), a lone `mov` is not (and refused)
 example : WellFormed (#[0xb7,0,0,0,0,0,0,0, 0x95,0,0,0,0,0,0,0] : Bytes) := by decide +kernel
 example : ¬ WellFormed (#[0xb7,0,0,0,0,0,0,0] : Bytes) := by decide +kernel
 example : Verifier.check (#[0xb7,0,0,0,0,0,0,0, 0x95,0,0,0,0,0,0,0] : Bytes) = .ok := by
   rw [C06_check_iff]; decide +kernel
 example : Verifier.check (#[0xb7,0,0,0,0,0,0,0] : Bytes) = .err := by decide
+example : Verifier.check (#[0xb7,0,0,0,0,0,0,0] : Bytes) = .err := by
+  rw [C06_refuse_iff]; decide +kernel
 -- `lddw r1, 0; ja +0; exit` is well-formed; the same program with the jump aimed at the second half of
 -- the wide load (`ja -2`) is not
 example : WellFormed (#[0x18,1,0,0,0,0,0,0, 0,0,0,0,0,0,0,0, 0x05,0,0,0,0,0,0,0,
